@@ -313,7 +313,8 @@ def build_unit(unit_dir, out_path, mutate=None, neg_control=False, bodies=None):
                 p.neg = neg
             try:
                 if p.kind in ("fn", "trait_fn", "stub"):
-                    eds, _ = splice_fn(t1, fs)
+                    eds, sh2 = splice_fn(t1, fs)
+                    p.lost_clauses = [(c.full_id, c.tags, msg) for (c, msg) in getattr(sh2, "lost", [])]
                 else:
                     for c in fs.clauses:
                         if c.kind == "attr":
